@@ -40,6 +40,7 @@ def b(name, **kw):
 
 U1 = [(V, 'u1_search', {}), (V, 'u1_overlap', {}), (V, 'u1_iter', {})]
 U2 = [(V, 'u2_buffer', {}), (V, 'u2_stream', {})]
+U2R = U2 + [(V, 'u2_replace', {})]
 
 PROPS = {
     'C01': dict(
@@ -83,9 +84,9 @@ PROPS = {
         level_note=COMMON_NOTE + ' Read contract = std documentation (assumption about the caller\'s reader). Buffer::free_buffer (one line) is trusted with a stated contract. Streams shorter than 2^64 bytes.',
     ),
     'C08': dict(
-        components=U2 + [b('stream', aspects='replace')],
+        components=U2R + [b('stream', aspects='replace')],
         level_text='Proof (Verus): the chunk sequence of StreamChunkIter::next partitions the stream: each NonMatch chunk is the next unreported bytes and never reaches into the next match, each Match chunk is exactly the next match of the abstract run with its bytes stream[m.start..m.end]; only bytes older than the retained tail are flushed before a roll and buffer_reported_pos is re-based by the rolled distance. Bounded companion: stream_replace_all / _with vs the splice definition on real readers/writers.',
-        level_note=COMMON_NOTE + ' The replacement driver loop (write_all per chunk) is covered by the bounded companion only; Read/Write contracts = std documentation.',
+        level_note=COMMON_NOTE + ' Driver try_stream_replace_all_with (u2_replace): the closure is handed exactly (match with absolute offsets, stream[m.start..m.end]) — a precondition obligation at its call site —, errors from the chunk iterator, the writer and the closure are returned at once, the loop terminates; byte-for-byte equality of the written output with the splice definition is decided by the bounded companion only (the closure and writer are opaque). Read/Write contracts = std documentation.',
     ),
     'C09': dict(
         components=[(V, 'u1_search', {}), (V, 'u1_overlap', {}), (V, 'u1_iter', {}),
@@ -136,9 +137,9 @@ PROPS = {
         level_note='Data-race freedom of a Sync value shared by & is Rust\'s soundness theorem (assumed).',
     ),
     'C18': dict(
-        components=U2 + [b('stream', faults='1')],
+        components=U2R + [b('stream', faults='1')],
         level_text='Proof (Verus): read results are nondeterministic in the proof, so every fault position is covered: on Err from fill, next returns Some(Err) with the abstract state (reported offset, remaining matches) unchanged and the representation invariant intact, Buffer::fill keeps already-buffered bytes; None is returned only after the reader reported end of stream into a non-empty buffer and everything was handed over; no panic/overflow/out-of-bounds. Bounded companion: a read fault at every byte position and a write fault after every output length on real readers/writers.',
-        level_note=COMMON_NOTE + ' Writer-fault half (try_stream_replace_all_with) is covered by the bounded companion only.',
+        level_note=COMMON_NOTE + ' Writer-fault half: try_stream_replace_all_with propagates every error with `?` and never panics (u2_replace); that the bytes written before a writer fault are a prefix of the fault-free output is decided by the bounded companion only.',
     ),
     'C19': dict(
         components=[(V, 'u1_search', {}), (V, 'u1_overlap', {}), b('faildepth')],
